@@ -37,8 +37,12 @@ def runCase (s : St) : String :=
       | some msg => s!"FAIL {msg}"
     let wf := if wfbCheck b.root && wfbCheck a.root then "1" else "0"
     let la := if laokCheck b.root then "1" else "0"
+    let cb := if consCheck s.text.toList b.root 0 then "1" else "0"
+    let ca := if consCheck s.text2.toList a.root 0 then "1" else "0"
+    let cm := if consCheck s.text2.toList m.root 0 then "1" else "0"
+    let eo := if editOKCheck s.text.toList s.text2.toList (Edit.ofInput e) then "1" else "0"
     let eb := if e.start_byte ≤ e.old_end_byte && e.old_end_byte ≤ tbJ b.root then "1" else "0"
-    s!"{s.id} corr={corr} judge={j} wfb={wf} laok={la} editok={eb} nodes={st.nodes} kept={st.kept} shifted={st.shifted} touched={st.touched}"
+    s!"{s.id} corr={corr} judge={j} wfb={wf} laok={la} editok={eb} consb={cb} consa={ca} consm={cm} editok2={eo} nodes={st.nodes} kept={st.kept} shifted={st.shifted} touched={st.touched}"
   | _, _, _ => s!"{s.id} corr=BADINPUT judge=BADINPUT"
 
 def step (s : St) (line : String) : IO St := do
